@@ -1,4 +1,5 @@
 import PvModel.Loop
+import PvModel.Lemmas.SortLemmas
 /-! Generic invariants of the optimise loop: whatever the step preserves holds of every recorded generation. -/
 
 section
@@ -128,4 +129,61 @@ theorem runBody_chain (Inv : σ → Prop) (Rel : List Agent → List Agent → P
           cases h
           exact this
     · cases h
+end
+
+/-! ## totality under an invariant: the loop returns a complete result whenever every reachable step returns -/
+section
+variable {R σ : Type} (ar : Arith R) (cfg : StopCfg R) (alg : Alg σ) (rate : List Agent → R) (dir : Dir)
+
+theorem special_ok_of_ne (pop : List Agent) (hne : pop ≠ []) :
+    ∃ b w, specialAgents .min pop (some 1) (some 1) = .ok ([b], [w]) := by
+  have hlen : 1 ≤ pop.length := Nat.pos_of_ne_zero (fun h => hne (List.length_eq_zero_iff.mp h))
+  have hs : (sortByCost .min pop).length = pop.length := isort_length _ _
+  have h1 : (bestAgents .min pop 1).length = 1 := by simp [bestAgents, hs]; omega
+  have h2 : (worstAgents .min pop 1).length = 1 := by simp [worstAgents, hs]; omega
+  match hb : bestAgents .min pop 1, hw : worstAgents .min pop 1, h1, h2 with
+  | [b], [w], _, _ => exact ⟨b, w, by simp [specialAgents, hb, hw]⟩
+
+/-- if `Good` is an invariant under which the step returns and leaves a non-empty population, the loop returns, and the history
+grows by exactly one generation per recorded rate. -/
+theorem loop_ok (Good : σ → Prop)
+    (hstep : ∀ s, Good s → ∃ s', alg.step s = .ok s' ∧ Good s' ∧ alg.pop s' ≠ [])
+    (fuel : Nat) (s : σ) (b : Book R) (hist : List (List Agent)) (hs : Good s) (hlen : hist.length = b.errors.length + 1) :
+    ∃ s' b' hist', loop ar cfg alg rate dir fuel s b hist = .ok (s', b', hist') ∧ Good s' ∧ hist'.length = b'.errors.length + 1 := by
+  induction fuel generalizing s b hist with
+  | zero => exact ⟨s, b, hist, rfl, hs, hlen⟩
+  | succ fuel ih =>
+    obtain ⟨s1, hst, hg1, hne⟩ := hstep s hs
+    obtain ⟨bb, ww, hsp⟩ := special_ok_of_ne (alg.pop s1) hne
+    unfold loop
+    simp only [hst, hsp]
+    split
+    · exact ⟨s1, _, _, rfl, hg1, by simp [errorCheck, hlen]⟩
+    · exact ih s1 _ _ hg1 (by simp [errorCheck, hlen])
+
+/-- **totality of `runBody`**: initialisation succeeds into a `Good` state with a non-empty population, `Good` is preserved by every
+step (which returns and keeps the population non-empty) ⇒ `optimize`'s body returns a complete result: a non-empty history with one
+rate per generation after the first. -/
+theorem runBody_ok (Good : σ → Prop) (s0 : σ)
+    (hinit : ∃ s1, alg.init s0 = .ok s1 ∧ Good s1 ∧ alg.pop s1 ≠ [])
+    (hstep : ∀ s, Good s → ∃ s', alg.step s = .ok s' ∧ Good s' ∧ alg.pop s' ≠ [])
+    (hpop : ∀ s, Good s → alg.pop s ≠ []) :
+    ∃ res sN bN, runBody ar cfg alg rate dir s0 = .ok (res, sN, bN) ∧ res.evolution ≠ [] ∧ res.evolution.length = res.rates.length + 1 := by
+  obtain ⟨s1, hi, hg1, hne1⟩ := hinit
+  obtain ⟨bb, ww, hsp⟩ := special_ok_of_ne (alg.pop s1) hne1
+  obtain ⟨s', b', hist', hl, hg', hlen'⟩ := loop_ok ar cfg alg rate dir Good hstep (max cfg.maxCycles.toNat 1) s1 Book.fresh
+    [snapshot dir (alg.pop s1)] hg1 (by simp [Book.fresh])
+  have hne' := hpop s' hg'
+  have hlen1 : 1 ≤ (alg.pop s').length := Nat.pos_of_ne_zero (fun h => hne' (List.length_eq_zero_iff.mp h))
+  have hb1 : (bestAgents .min (alg.pop s') 1).length = 1 := by
+    have hs : (sortByCost .min (alg.pop s')).length = (alg.pop s').length := isort_length _ _
+    simp [bestAgents, hs]; omega
+  match hb : bestAgents .min (alg.pop s') 1, hb1 with
+  | [best], _ =>
+    refine ⟨{ evolution := hist', rates := b'.errors, best := best.refine dir }, s', b', ?_, ?_, hlen'⟩
+    · simp only [runBody, hi, hsp, hl, bestAgent, hb]
+    · intro h
+      have h0 : hist' = [] := h
+      rw [h0] at hlen'
+      simp at hlen'
 end
